@@ -288,7 +288,9 @@ def body_iff_content_length(chk, prog, cfg, b, fn, rule="R4.body_iff_cl"):
         calls = [c[1] for c in desc_calls(d)]
         has_cl = desc_contains(d, lambda y: y[0] == "call" and y[1].endswith("Headers::get") and any(core.is_variant(a, "HeaderType", "ContentLength") for a in y[2]))
         if has_cl:
-            pure = all(core.re.search(r"Headers::(get|new)$|(::|>::)(deref|as_ref|as_str|borrow|clone|into|from)$", c) for c in calls)
+            # (presence-preserving steps are fine: `map` keeps Some as Some, `transpose` / `map_err` / `?` only add the error exit)
+            pure = all(core.re.search(r"Headers::(get|new)$|(::|>::)(deref|as_ref|as_str|borrow|clone|into|from)$|Option::<T>::(map|as_ref|as_deref|copied|cloned)$|"
+                                      r"Option::<std::result::Result<T, E>>::transpose$|Option::<Result<T, E>>::transpose$|::transpose$|Result::<T, E>::map_err$|ops::Try>::branch$", c) for c in calls)
             cl_sw.append((s_, info, pure, calls))
     chk.ob(rule, fn, "one test of headers.get(Content-Length) decides whether a body follows", len(cl_sw) == 1, f"{len(cl_sw)} tests", cfg=cfg)
     for s_, info, pure, calls in cl_sw[:1]:
